@@ -43,12 +43,18 @@ CHECKS = {
  "C12": ("exploration", EXH,
          "InterceptedService over 6720 requests (methods x versions x URIs x header maps incl. repeated/reserved/padded-binary/obs-text x extension x bodies incl. trailers) x 20 accepting actions and 142/267 rejecting statuses, judged by a recorder inner service and a reference multimap model; the reject path requires zero inner calls, 200, application/grpc, empty body and independently decoded status headers equal to Status::add_header; generated with_interceptor client and server are exercised too.",
          "Headers compared per key in order (cross-key order unconstrained); interceptors are closures over the public Request<()> API.", "3/C12"),
+ "C14": ("fault_enumeration", "exhaustive enumeration of fault scripts (connect fails / succeeds / established connection dropped / call) against the real Channel over an owned in-memory network in virtual time, with a reference model stepped in lock-step",
+         "Every canonical event script up to length 6 (thorough 9) over {call, connector starts failing, connector starts succeeding, peer drops the connection} x lazy/eager x initial connector mode x connector/pipe/timeout variants runs on the real Endpoint::connect_with_connector[_lazy] -> Channel -> hyper/h2 -> Server stack; every call outcome and the number of connector invocations must equal RefChannel's (answer when connected; one attempt per call while disconnected; UNAVAILABLE only to the triggering call; eager initial failure reported by connect; never a hang under the virtual-time horizon).",
+         "Faults land at quiescent points (as the quantifier states); task interleavings inside hyper/h2/tokio follow the deterministic current-thread order.", "3/C14"),
  "C16": ("model_checking", TECH,
          "Inner gRPC responses (0..2 frames, trailer-map menu) delivered to the real GrpcWebService under every chunking within the bound (all compositions for short bodies, plus drip) for every Accept value, decoded by an independent grpc-web(-text) decoder: identical message bytes then exactly one 0x80 trailers frame listing every trailer; grpc-web requests (binary and base64 text, every composition into chunks) must reach the inner service as the original gRPC bytes; the full method x version x content-type dispatch table (405 / 400 / untouched pass-through).",
          "Text responses are accepted as concatenations of independently padded base64 segments; text requests are one padded base64 stream; grpc-web media types with parameters are recorded, not judged.", "3/C16"),
  "C17": ("model_checking", TECH,
          "grpc-web response bodies from an independent encoder (0..2 message frames + trailers frame over a trailer-map menu, truncation at every byte, bad flag at every frame start) delivered through GrpcWebClientService under every chunking (all compositions for bodies <= 21/26 bytes, else <= bound cuts/Pending, plus drip); data and the full trailer multimap must be recovered, malformed bodies must error, no busy loop; a real generated client on top must see the server's status.",
          "Binary grpc-web only (the client layer never requests text); a body cut exactly at a frame boundary is not judged.", "3/C17"),
+ "C19": ("exploration", EXH,
+         "Every 1- and 2-file descriptor set of a bounded grammar (package none/p/p.q; message forests nested to depth 2/3; fields, oneofs, top-level and nested enums, services with 1-2 methods; colliding one-letter names) x every registration mode (decoded, encoded, duplicated, split over sets) x with_service_name x include_reflection_service, plus the real health/google.rpc/reflection sets: the Builder-built v1 and v1alpha services are queried through the generated clients for every declared name, every file, list_services and hundreds of mutated unknown names, judged by an independent FQN computation; v1 and v1alpha must agree.",
+         "Names outside the grammar are covered only by the four real descriptor sets; enum values are accepted under either naming rule; package names are not judged; the responder task runs on a deterministic paused current-thread runtime.", "3/C19"),
  "C20": ("exploration", EXH,
          "Every subset of the ten standard details (set API) and every sequence of length <= 3 (vec API) over per-kind value menus is attached to a status, sent through add_header/from_header_map and compared field-wise via all StatusExt getters against reference values; the wire blob is decoded by a hand-written protobuf reader (embedded code/message, type URLs, order); foreign-encoded, mutated, truncated and arbitrary short blobs must never panic.",
          "Field values outside the menus are not covered; wire order of set-API details unconstrained; prost is the decoder under test.", "3/C20"),
